@@ -46,6 +46,9 @@ ASSUMPTIONS = [
     "whose first characters occur in 'RSA1024:' / 'ED25519-V3:' can be supplied; create() of an authenticated v2 service cannot complete there "
     "and is not judged) and auth-service-id-not-derived-from-key (the ServiceID returned for a BasicAuth service is not the hash of its key; "
     "HS_DESC events name the key-derived id); the per-ADD_ONION / DEL_ONION oracle is unchanged in both",
+    "cells with clients_as hand the client list to AuthBasic as iter(...), a generator expression, zip(names, tokens) or a tuple: the "
+    "request is the sequence of clients the iterable yields; cells with ports_as_iterator pass iter(ports): refusing it before sending "
+    "(the API asks for a list / sequence) or sending exactly those mappings are both accepted",
     "key kind prefixed-other-type: a type-prefixed caller key whose type is not the one the requested version implies (ED25519-V3:<blob> "
     "with version 2 or with the version omitted - create() defaults to 2 -, RSA1024:<blob> with version 3): either the ADD_ONION carries the "
     "key exactly as given (the prefix states the type) or create() fails before anything but SETEVENTS is written; a re-prefixed key is neither",
@@ -150,6 +153,7 @@ def auth_clients(kind):
         "b2": ["alice", ["bob", cookie(2)]],
         "b3": [["carol", cookie(3)], "dave", ["erin", cookie(4)]],
         "b3n": ["u1", "u-2", "u_3"],
+        "b3t": [["x1", cookie(5)], ["x2", cookie(6)], ["x3", cookie(7)]],
     }[kind]
 
 
@@ -177,6 +181,20 @@ def all_cells():
         yield {"route": "auth", "version": 2, "key": key, "detach": detach, "single_hop": False,
                "auth": a, "clients": auth_clients(a), "ports_id": pl, "ports": PORT_LISTS[pl], "await_all": aw,
                "server_variant": "auth-service-id-not-derived-from-key"}
+    # the client list handed to AuthBasic as a single-pass iterable (iterator, generator, zip) or a tuple
+    for a, how, detach, key in itertools.product(("b1n", "b1t", "b2", "b3", "b3n", "b3t"), ("iter", "generator", "tuple", "zip"),
+                                                 (False, True), ("none", "bare")):
+        cl = auth_clients(a)
+        if how == "zip" and not all(isinstance(c, list) for c in cl):
+            continue
+        yield {"route": "auth", "version": 2, "key": key, "detach": detach, "single_hop": False, "auth": a, "clients": cl,
+               "ports_id": "str", "ports": PORT_LISTS["str"], "await_all": False, "clients_as": how}
+    # the ports handed over as a one-shot iterator (the API asks for a list / sequence)
+    for route, pl in itertools.product(ROUTES, ("int", "str", "int+pair+str", "pair+pair-unix")):
+        a = "b1n" if route == "auth" else None
+        yield {"route": route, "version": 2, "key": "none", "detach": False, "single_hop": False, "auth": a,
+               "clients": auth_clients(a) if a else None, "ports_id": pl, "ports": PORT_LISTS[pl], "await_all": False,
+               "ports_as_iterator": True}
     # a type-prefixed caller key whose type disagrees with the requested / omitted version (create() defaults to 2)
     for route, (version, omitted), detach, pl in itertools.product(
             ROUTES, ((2, False), (2, True), (3, False)), (False, True), SMALL_PORTS):
@@ -329,6 +347,10 @@ def variant_class(cell):
     out = []
     if cell.get("server_variant"):
         out.append("server-variant-" + cell["server_variant"])
+    if cell.get("clients_as"):
+        out.append("clients-given-as-" + cell["clients_as"])
+    if cell.get("ports_as_iterator"):
+        out.append("ports-given-as-iterator")
     if cell.get("version_omitted"):
         out.append("version-omitted")
     if cell.get("ports_as_tuple"):
@@ -510,7 +532,9 @@ def run_cell(cell, rec, probe=False, ctx=None, objs=None, extra_class=None, inje
             ports = [tuple(p) if isinstance(p, list) else p for p in cell["ports"]]
             if cell.get("ports_as_tuple"):
                 ports = tuple(ports)            # the API takes any sequence: a tuple of mappings, too
-        ports_before = [p for p in ports]
+            if cell.get("ports_as_iterator"):
+                ports = iter(ports)             # not a sequence: may be refused, must not be mis-read
+        ports_before = [] if cell.get("ports_as_iterator") else [p for p in ports]
         auth_obj = None
         if inject == "refuse":
             tor.script("ADD_ONION", (512, [("end", "Bad arguments to ADD_ONION: refused by the harness")]))
@@ -533,7 +557,17 @@ def run_cell(cell, rec, probe=False, ctx=None, objs=None, extra_class=None, inje
                     auth_obj = objs["auth"]
                 else:
                     clients = [tuple(c) if isinstance(c, list) else c for c in cell["clients"]]
-                    auth_obj = AuthBasic(clients)
+                    how = cell.get("clients_as")
+                    if how == "iter":
+                        auth_obj = AuthBasic(iter(list(clients)))                 # a single-pass iterator
+                    elif how == "generator":
+                        auth_obj = AuthBasic(c for c in list(clients))
+                    elif how == "zip":                                            # all clients carry a token
+                        auth_obj = AuthBasic(zip([c[0] for c in clients], [c[1] for c in clients]))
+                    elif how == "tuple":
+                        auth_obj = AuthBasic(tuple(clients))
+                    else:
+                        auth_obj = AuthBasic(clients)
                 auth_before = {n: auth_obj.keyblob_for(n) for n in auth_obj.client_names()}
                 kw["auth"] = auth_obj
                 d = EphemeralAuthenticatedOnionService.create(reactor, cfg, ports, **kw)
@@ -573,7 +607,7 @@ def run_cell(cell, rec, probe=False, ctx=None, objs=None, extra_class=None, inje
         def request_objects_check():
             # the caller's request objects after the creation: observed (counted), the verdict comes from
             # the ADD_ONION of the NEXT creation that re-uses them
-            if list(ports) != ports_before and not cell.get("caller_mutates_after_call"):
+            if not cell.get("ports_as_iterator") and list(ports) != ports_before and not cell.get("caller_mutates_after_call"):
                 rec.count("request_objects_mutated")
                 rec.seen("request_object_mutations", "ports-list/" + input_class(cell))
             if auth_obj is not None:
@@ -586,6 +620,14 @@ def run_cell(cell, rec, probe=False, ctx=None, objs=None, extra_class=None, inje
                     rec.count("request_objects_mutated")
                     rec.seen("request_object_mutations", "auth-basic-tokens/" + input_class(cell))
 
+        # ---- ports handed over as a one-shot iterator: refused before sending, or read correctly -------------------
+        if cell.get("ports_as_iterator") and not add_lines and o.fired == 1 and o.ok is False:
+            rec.count("ports_iterator_refused_before_sending")
+            foreign = [l for l in mine() if not l.startswith("SETEVENTS ")]
+            if foreign:
+                V("unexpected-line-after-local-refusal", {"lines": foreign})
+            rec.case(cell, nontrivial=True)
+            return bad
         # ---- key of another type than the version implies: sent exactly as given, or refused before sending -------
         if cell["key"] == "prefixed-other-type" and not add_lines and o.fired == 1 and o.ok is False:
             rec.count("mismatched_key_type_refused_before_sending")
@@ -980,6 +1022,8 @@ def random_cell(rnd):
         rnd.shuffle(cl)
         cell["clients"] = cl
         cell["auth"] = "random"
+        if rnd.random() < 0.4:
+            cell["clients_as"] = rnd.choice(["iter", "generator", "tuple"])
     ports = []
     virts = set()
     for _ in range(rnd.choice([1, 1, 2, 3, 3, 4, 6])):
